@@ -124,11 +124,14 @@ Definition waiting (m : machine) : bool :=
       else false
   end.
 
-(** [complete_flag]: never clears [self.flag]. *)
+(** [complete_flag]: never clears [self.flag].  Repair 9120dc5: "needed value and
+    was not given one" is judged by [flag_got_value] (whether *this occurrence*
+    of the flag received a value), no longer by [raw_value is None]; the
+    optional-value branch below still looks at [raw_value]. *)
 Definition complete_flag (m : machine) : result machine :=
   match m_flag m, flag_arg m with
   | Some f, Some r =>
-      if takes_value (r_spec r) && negb (r_raw r) && negb (a_optional (r_spec r))
+      if takes_value (r_spec r) && negb (m_got m) && negb (a_optional (r_spec r))
       then Err EParse
       else if negb (r_raw r) && a_optional (r_spec r)
       then set_arg_value m f (IBool true) false
@@ -340,18 +343,24 @@ Definition presplit (m : machine) (t : string) : result (string * list string) :
     else if negb (is_long_flag t) && Nat.ltb 2 (String.length t) then
       let h := take 2 t in
       let rest := drop 2 t in
-      (* machine.context is not None and token in machine.context.flags (repair e36c9e6) *)
+      (* repair dd95c66: the flag is looked up like [handle] does -- the current
+         context first ([machine.context is not None and token in ...flags],
+         repair e36c9e6), then the initial one; only outside the "unknown" state *)
+      let flag_tv (c : rctx) : option bool :=
+        match find_flag (rc_args c) h with
+        | Some i => Some match nth_error (rc_args c) i with
+                         | Some r => takes_value (r_spec r)
+                         | None => false
+                         end
+        | None => None
+        end in
       let have :=
-        match cur_ctx m with
-        | None => false
-        | Some c =>
-            match find_flag (rc_args c) h with
-            | Some i =>
-                negb (pstate_eqb (m_st m) SUnknown) &&
-                match nth_error (rc_args c) i with
-                | Some r => takes_value (r_spec r)
-                | None => false
-                end
+        negb (pstate_eqb (m_st m) SUnknown) &&
+        match (match cur_ctx m with Some c => flag_tv c | None => None end) with
+        | Some b => b
+        | None =>
+            match init_ctx_of m with
+            | Some ic => match flag_tv ic with Some b => b | None => false end
             | None => false
             end
         end in
@@ -377,8 +386,10 @@ Definition step (p : parser) (m : machine) (t : string) : result (machine * list
 
 (** (Before repairs 401bc73 / e36c9e6 the token-splitting step raised
     AttributeError when [machine.context] was None, and a failing [int()]
-    escaped as ValueError: findings F-C07b / F-C07a, now "fixed" in
-    KNOWN_FINDINGS.json; their witnesses stay in corpus/C07.) *)
+    escaped as ValueError: findings F-C07b / F-C07a.  Before 9120dc5
+    [complete_flag] tested [raw_value is None] (F-C07c / F-C07d); before dd95c66
+    the short-cluster split consulted the current context only (F-C18a).  All
+    "fixed" in KNOWN_FINDINGS.json; their witnesses stay in corpus/.) *)
 
 (** Fuel: the loop consumes one unit per token handled.  [None] = fuel
     exhausted (shown impossible for [body_fuel] in Proofs/C07_parser.v). *)
